@@ -75,6 +75,57 @@ def one_task(root, name, spec):
     return probs, None
 
 
+def build_case(root, k, conf_rc, build_rc, preconfigured):
+    '''a BuildTask whose cmake is a shell script: `cmake <flags> <src>` exits conf_rc, `cmake --build <dir>` exits build_rc; every invocation is logged'''
+    import stat
+    from valjean.cosette.code import BuildTask
+    from valjean.cosette.env import Env
+    from valjean.cosette.task import TaskStatus
+    sub = tempfile.mkdtemp(prefix=f'build{k}_', dir=root)
+    calls = os.path.join(sub, 'calls.log')
+    fake = os.path.join(sub, 'fake_cmake.sh')
+    with open(fake, 'w') as f:
+        f.write('#!/bin/sh\n'
+                f'echo "$@" >> {calls}\n'
+                'if [ "$1" = "--build" ]; then\n'
+                f'  exit $(cat {sub}/build_rc)\n'
+                'fi\n'
+                f'exit $(cat {sub}/conf_rc)\n')
+    os.chmod(fake, os.stat(fake).st_mode | stat.S_IEXEC)
+    src = os.path.join(sub, 'src')
+    os.makedirs(src)
+
+    def set_rc(c, b):
+        open(os.path.join(sub, 'conf_rc'), 'w').write(str(c))
+        open(os.path.join(sub, 'build_rc'), 'w').write(str(b))
+    old = BuildTask.CMAKE
+    BuildTask.CMAKE = fake
+    probs = []
+    try:
+        cfg = _cfg(os.path.join(sub, 'out'))
+        if preconfigured:
+            set_rc(0, 0)
+            BuildTask('proj', src, build_root=os.path.join(sub, 'out'), log_root=os.path.join(sub, 'log')).do(env=Env(), config=cfg)
+            os.remove(calls)
+        set_rc(conf_rc, build_rc)
+        try:
+            up, st = BuildTask('proj', src, build_root=os.path.join(sub, 'out'), log_root=os.path.join(sub, 'log')).do(env=Env(), config=cfg)
+        except Exception as e:      # noqa
+            return [f'BuildTask.do raised {e!r}']
+        ran = open(calls).read().splitlines() if os.path.exists(calls) else []
+        built = [c for c in ran if c.startswith('--build')]
+        want_done = conf_rc == 0 and build_rc == 0
+        if (st == TaskStatus.DONE) != want_done:
+            probs.append(f'status {st.name} with configure exit {conf_rc} and build exit {build_rc}')
+        if conf_rc != 0 and built:
+            probs.append('the build step was run although the configure step failed')
+        if conf_rc == 0 and len(built) != 1:
+            probs.append(f'the build step was run {len(built)} time(s) after a successful configure step')
+    finally:
+        BuildTask.CMAKE = old
+    return probs
+
+
 def sweep(tier, seed):
     fails, n = [], 0
     codes = [0, 1, 'missing']
@@ -126,12 +177,20 @@ def sweep(tier, seed):
             if d in dirs:
                 fails.append({'input': {'names': [dirs[d], name]}, 'observed': f'both tasks use {d}', 'expected': 'distinct directories'})
             dirs[d] = name
+        # BuildTask (cosette/code.py): configure then build through a fake cmake whose exit statuses are scripted
+        for conf_rc, build_rc, preconfigured in itertools.product((0, 1), (0, 1), (False, True)):
+            n += 1
+            probs = build_case(root, n, conf_rc, build_rc, preconfigured)
+            if probs:
+                fails.append({'input': {'build_task': True, 'configure_exit': conf_rc, 'build_exit': build_rc, 'build_dir_configured_by_an_earlier_run': preconfigured},
+                              'observed': probs[:3], 'expected': 'DONE iff both steps exit with zero; the build step is not run after a failing configure step'})
     finally:
         shutil.rmtree(root, ignore_errors=True)
     return {'name': 'run-task-native', 'evaluations': n, 'distinct': n, 'failures': fails[:8], 'exhaustive': True,
             'bound': f'real RunTask with real child processes: all lists of <= {2 if tier == "quick" else 3} commands with exit status 0 / 1 / missing executable '
                      '(+ selected 3-command lists in the quick tier), both streams; 14 task names incl. empty, ".", "..", with slash / NUL / newline / space; '
-                     '12 look-alike names (case, inner / surrounding whitespace) for directory ownership', 'samples': [{'name': 'task7', 'exit_statuses': [0, 1, 0]}]}
+                     '12 look-alike names (case, inner / surrounding whitespace) for directory ownership; BuildTask with a scripted fake cmake: configure / build exit 0 or 1, fresh and already '
+                     'configured build directory', 'samples': [{'name': 'task7', 'exit_statuses': [0, 1, 0]}]}
 
 
 def replay(inp):
